@@ -17,3 +17,16 @@ Definition ms_to_duration (ms : Z) : Z := first_branch (upd empty_env ms_param m
 Definition interval_period (timeout : Z) : Z :=
   let e := upd empty_env "timeout"%string timeout in
   if holds e empty_env interval_clamp_cond then eval e empty_env interval_clamp_value else timeout.
+
+(* delayMillis(v): the delay argument of setTimeout/setInterval, after ToNumber, as whole milliseconds. A finite value is a
+   rational n/d (every float is); NaN is None. math.Ceil, then saturation at the ends of int64 - as written in eventloop.go
+   (fix b6ed023); the text of the function is part of loop_funcs, which the property files compare with the source. *)
+Definition cdiv (n d : Z) : Z := - ((- n) / d).        (* ceiling of n/d for d > 0 *)
+Definition delay_millis (v : option (Z * Z)) : Z :=
+  match v with
+  | None => 0
+  | Some (n, d) =>
+    let c := cdiv n d in
+    if c >=? 9223372036854775807 then 9223372036854775807
+    else if c <=? -9223372036854775808 then -9223372036854775808 else c
+  end.
